@@ -312,6 +312,8 @@ def run_check(pid: str, tier: str, seed: int) -> int:
 
     # 4. classify findings, shrink the unknown ones
     shrink_left = 120 if tier == 'quick' else 900
+    if os.environ.get('VERIF_NO_SHRINK'):
+        shrink_left = 0          # sensitivity runs only ask whether something is found, not for the smallest input
     for sig, (r, item) in sorted(by_sig.items()):
         if sig in open_sigs:
             known_seen[sig] = known_seen.get(sig, 0) + fcounts[sig]
